@@ -172,7 +172,8 @@ func kvRead(id string, db *DB, h []kvWrite, kind int, bucket string, q1, q2 []by
 }
 
 // H_C01_KV: a symbolic history of write transactions, then one read of each kind selected by choice.
-// params: mode (EntryIdxMode), rw (RWMode), nops (number of writes), maxkey, seg (0: vary)
+// params: mode (EntryIdxMode), rw (RWMode), nops (number of writes), maxkey, nseg (segment sizes drawn from),
+// allkinds (0: alternating TTL shapes, 1: all shapes, 2: Put/Delete only), single (1: one write per transaction)
 func H_C01_KV() {
 	vSetup()
 	defer vCleanup()
@@ -190,14 +191,16 @@ func H_C01_KV() {
 	// transactions of one or two operations
 	for len(h) < nops {
 		n := 1
-		if len(h)+2 <= nops {
+		if len(h)+2 <= nops && vParam("single") == 0 {
 			n = 1 + vChoose(2)
 		}
 		ws := make([]kvWrite, n)
 		for i := range ws {
 			idx := len(h) + i
 			kinds := []int{0, 2, 4, 1, 3, 5}
-			if vParam("allkinds") == 0 {
+			if vParam("allkinds") == 2 {
+				kinds = []int{0, 4} // persistent Put and Delete only
+			} else if vParam("allkinds") == 0 {
 				if idx%2 == 0 {
 					kinds = []int{0, 1, 3}
 				} else {
